@@ -48,6 +48,18 @@ CLAIMED = {
             "constructor forms agree, accessors, negative error rejected, conversion x -> a*x+b scales variance by a^2 (rel invariant for b=0), first-order arithmetic incl. self-correlation, tokenizer conservative on trigger-free streams and correct on the whole notation family incl. the exponent look-ahead (unc_tokens, full), parse of (v +/- u) unit, join_unc. K: the real tokenizer on thousands of notation instances (types, texts, positions), exact affine conversion for all temperature pairs and sampled unit pairs in the Fraction registry, constructor and shared-variable expression streams within 1e-12 (uncertainties computes in floats: that part is testing).",
             TB + " uncertainties' float propagation and number formatting are trusted. F15, F70, F71 repaired by fix: commits; F72, F73 (offset-unit errors / Measurement lacks offset rules) known findings.",
             "DESIGN.md §4 C19"),
+    "C05": ("Coq proof over a branch-for-branch model of __eq__/compare/__hash__ (defect switches) against a physical-value spec, for every registry meeting decidable side conditions + exact correspondence in the Fraction registry + law oracles",
+            "eq_spec (== iff same dimensionality and equal converted magnitudes) with reflexive/symmetric/transitive corollaries for multiplicative units and, guarded, for offset units; affine conversion formula; hash respects == (guarded / repaired); trichotomy and order = order of root magnitudes under per-unit positive factors; cross-dimension ordering is Err EDim while == is false; bare-number rule. Refuted by vm_compute witnesses on the regenerated registry where pint deviates. K: all same-dimension unit pairs x 9 magnitude rows (==, !=, 4 orderings, hashes), temperature/delta families, dimensionless families, triples for transitivity, numbers/None, Unit-level ops.",
+            TB + " Idealised injective hash. F1 (both-zero shortcut with offset units), F2 (hash differs for equal quantities differing in dimensionless base units), F85 (offset vs delta equality) are listed in known_findings/C05.json unless repaired.",
+            "DESIGN.md §4 C05"),
+    "C07": ("Coq proof of the parser round trip (parse_render for every expression of Python's grammar, both parenthesis styles, arbitrary redundant groups) over an index-for-index mirror of _build_eval_tree + operator tables regenerated from pint_eval.py (T2) + exhaustive token-level correspondence + string-level oracle (Python's own eval on Quantity leaves) + audit-hook fuzzing",
+            "parse_render (full, no size bound), parenthesize_wfp, precedence/associativity corollaries, eval_is_python over the regenerated operator maps, no value on unbalanced parentheses or a dangling operator for ALL token lists, static no-execution scan tie. K: all token sequences up to length 4-6 over small alphabets, all small trees in both styles, random trees to 25 leaves, malformed streams by exception class; string level through parse_expression/Quantity(str)/ParserHelper.from_string in float/Decimal/Fraction registries with whitespace/word/superscript spellings; audit hook over thousands of fuzz parses (a test).",
+            TB + " string_preprocessor's regexes and Python's tokenize are not modelled (string-level differential stream only); the dynamic no-execution clause is a test. F16 (juxtaposition before a parenthesised group ignores priority) and F40 (unary minus as x * -1 on Decimal zero) are known findings unless repaired.",
+            "DESIGN.md §4 C07"),
+    "C10": ("Coq proof over a string-level model of definition lines (split/classify/print round trip, decimal printer, permutation independence of the definition tables, ill-formed never meaningful) + Coq lexer tied to T1 + correspondence on the bundled files and random definition files across permutations, layouts and every loading path",
+            "parse_print_def, parse_print_dec (terminating decimals), permuted inputs give equal unit/prefix/dimension tables hence equal meaning for unambiguous names, rejection in every order, mixed references / bad prefix values / unknown modifiers / undefined references / cycles never yield a meaning. K: every spelling of the bundled files (exact), every definition line through the Coq reader vs pint's own statement classes, 20/200 random files x 7 orders x 3 layouts x {filename, lines, load_definitions, define, cold cache, warm cache} x {float, Decimal, Fraction}, 52 fault kinds.",
+            TB + " Block directives (@group/@system/@context/@defaults) and @import resolution stay in T1's Python half; flexparser/flexcache/file I/O are exercised by K only. F55-F58 (and F9 seen from the late loading paths) are known findings unless repaired.",
+            "DESIGN.md §4 C10"),
 }
 PENDING = "check not built yet in this round (planned, see DESIGN.md §4); not claimed until its model, theorems and correspondence exist"
 
